@@ -324,6 +324,15 @@ theorem combine_safe (n : Nat) (f : Int → Int → Int) (p q : Option Addr) :
   safe_alloc z hz
   safe_ret
 
+theorem combineQuo_safe (n : Nat) (p q : Option Addr) :
+    Safe n (combineQuo p q) (FreshBI n) := by
+  unfold combineQuo
+  safe_call (loadB_safe n _) => a _ha
+  safe_call (loadB_safe n _) => b _hb
+  refine Safe.ite (fun _ => Safe.panic) (fun _ => ?_)
+  safe_alloc z hz
+  safe_ret
+
 theorem newBI_safe (n : Nat) (v : Int) : Safe n (newBI v) (FreshBI n) := by
   unfold newBI
   safe_alloc z hz
@@ -393,26 +402,26 @@ theorem mulPP_safe (f : Int → Int → Int) (a b : HIR) : Safe n (mulPP f a b r
 theorem quoNN_safe (a b : HIR) : Safe n (quoNN a b ret) (FreshP n) := by
   unfold quoNN
   exact twoSteps_safe hret
-    (fun _ hr => stepHi_safe hr (choose_safe _ (inf_safe n (by simp)) (combine_safe n _ _ _)))
-    (fun _ hr => stepLo_safe hr (choose_safe _ (newBI_safe n _) (combine_safe n _ _ _)))
+    (fun _ hr => stepHi_safe hr (choose_safe _ (inf_safe n (by simp)) (combineQuo_safe n _ _)))
+    (fun _ hr => stepLo_safe hr (choose_safe _ (newBI_safe n _) (combineQuo_safe n _ _)))
 
 theorem quoNP_safe (a b : HIR) : Safe n (quoNP a b ret) (FreshP n) := by
   unfold quoNP
   exact twoSteps_safe hret
-    (fun _ hr => stepLo_safe hr (choose_safe _ (inf_safe n (by simp)) (combine_safe n _ _ _)))
-    (fun _ hr => stepHi_safe hr (choose_safe _ (newBI_safe n _) (combine_safe n _ _ _)))
+    (fun _ hr => stepLo_safe hr (choose_safe _ (inf_safe n (by simp)) (combineQuo_safe n _ _)))
+    (fun _ hr => stepHi_safe hr (choose_safe _ (newBI_safe n _) (combineQuo_safe n _ _)))
 
 theorem quoPN_safe (a b : HIR) : Safe n (quoPN a b ret) (FreshP n) := by
   unfold quoPN
   exact twoSteps_safe hret
-    (fun _ hr => stepLo_safe hr (choose_safe _ (inf_safe n (by simp)) (combine_safe n _ _ _)))
-    (fun _ hr => stepHi_safe hr (choose_safe _ (newBI_safe n _) (combine_safe n _ _ _)))
+    (fun _ hr => stepLo_safe hr (choose_safe _ (inf_safe n (by simp)) (combineQuo_safe n _ _)))
+    (fun _ hr => stepHi_safe hr (choose_safe _ (newBI_safe n _) (combineQuo_safe n _ _)))
 
 theorem quoPP_safe (a b : HIR) : Safe n (quoPP a b ret) (FreshP n) := by
   unfold quoPP
   exact twoSteps_safe hret
-    (fun _ hr => stepHi_safe hr (choose_safe _ (inf_safe n (by simp)) (combine_safe n _ _ _)))
-    (fun _ hr => stepLo_safe hr (choose_safe _ (newBI_safe n _) (combine_safe n _ _ _)))
+    (fun _ hr => stepHi_safe hr (choose_safe _ (inf_safe n (by simp)) (combineQuo_safe n _ _)))
+    (fun _ hr => stepLo_safe hr (choose_safe _ (newBI_safe n _) (combineQuo_safe n _ _)))
 
 theorem rshN_safe (a b : HIR) : Safe n (rshN a b ret) (FreshP n) := by
   unfold rshN
